@@ -43,9 +43,13 @@ class ToyModel(ForwardModel):
     """y(x) = sum_k p_k * x**k  on a fixed native grid; parameters, modes,
     default-fit flags, bounds and derived parameters come from config."""
 
-    def __init__(self, params, derived, ngrid=12, invalid_above=None):
+    def __init__(self, params, derived, ngrid=12, invalid_above=None,
+                 rows2d=None):
         super().__init__('ToyModel')
         self._invalid_above = invalid_above
+        # light-curve like output: one row per factor (a 2-D model against a
+        # 2-D observation, as ObservedLightCurve/LightCurveModel produce)
+        self._rows2d = None if not rows2d else np.asarray(rows2d, dtype=float)
         self._values = {}
         self._order = []
         for p in params:
@@ -81,6 +85,8 @@ class ToyModel(ForwardModel):
         y = np.zeros_like(x)
         for k, n in enumerate(self._order):
             y = y + self._values[n] * x**k
+        if self._rows2d is not None:
+            y = self._rows2d[:, None] * y[None, :]
         return x, y, None, None
 
     def write(self, output):
@@ -140,7 +146,7 @@ class ToyObs(BaseSpectrum):
 def build_toy(cfg):
     """cfg: {'mparams','mderived','oparams','oderived','ngrid'} -> model, obs"""
     model = ToyModel(cfg['mparams'], cfg['mderived'], cfg.get('ngrid', 12),
-                     cfg.get('invalid_above'))
+                     cfg.get('invalid_above'), cfg.get('rows2d'))
     x = model._x
     if 'obs_y' in cfg:
         y = np.asarray(cfg['obs_y'], dtype=float)
